@@ -102,6 +102,33 @@ def _zone_task(payload):
                                       f"downstream {'rebuilt' if rebuilt else 'NOT rebuilt'} but instant(D){'<' if expect else '>='}max(instant(U), instant(fresh)): "
                                       f"U={render(tU, fU, zone)!r} D={render(tD, fD, zone)!r} fresh={fresh!r}",
                                       (zone, tU, fU, tD, fD, tF, fF)))
+    # ---- pass with the bundled source stores upstream (ModifiedTimeSource, LiteralSource) in every form
+    from uberjob.stores import LiteralSource, ModifiedTimeSource
+
+    for tU, tD in itertools.product(ins, repeat=2):
+        for fU in FORMS:
+            for which in ("mts", "lit"):
+                for fD in ("aware-utc", "naive-local"):
+                    n += 1
+                    plan = uberjob.Plan()
+                    reg = uberjob.Registry()
+                    when = render(tU, fU, zone)
+                    u = reg.source(plan, ModifiedTimeSource(when) if which == "mts" else LiteralSource(1, when))
+                    sd = TStore(render(tD, fD, zone), 0)
+                    d = plan.call(lambda x: 0, u)
+                    reg.add(d, sd)
+                    try:
+                        uberjob.run(plan, registry=reg, max_workers=1, progress=None)
+                    except Exception as e:  # noqa
+                        fails.append(("raised (bundled source)", f"run raised {e!r}", (zone, tU, fU, tD, fD, None, which)))
+                        continue
+                    rebuilt = sd.writes > 0
+                    expect = tD < tU
+                    if rebuilt != expect:
+                        name = "ModifiedTimeSource" if which == "mts" else "LiteralSource"
+                        fails.append((_classify(zone, fU, fD, None, tU, tD, None, ins) + f" ({name} upstream)",
+                                      f"{name}({when!r}) upstream, downstream modified {render(tD, fD, zone)!r}: downstream {'rebuilt' if rebuilt else 'NOT rebuilt'}, "
+                                      f"expected {'rebuilt' if expect else 'kept'}", (zone, tU, fU, tD, fD, None, which)))
     # ---- second pass: real file stores (their own get_modified_time in the loop), fresh_time in every form
     d0 = tempfile.mkdtemp(prefix="c18_")
     try:
@@ -117,8 +144,11 @@ def _zone_task(payload):
                     os.utime(p, (t, t))
                 plan = uberjob.Plan()
                 reg = uberjob.Registry()
-                u = reg.source(plan, JsonFileStore(pu))
-                d = plan.call(lambda x: x + 1, u)
+                # upstream alternately through JsonFileStore and through the bundled PathSource
+                from uberjob.stores import PathSource
+                use_path_source = (tU + tD + (tF or 0)) % 2 == 1
+                u = reg.source(plan, PathSource(pu) if use_path_source else JsonFileStore(pu))
+                d = plan.call((lambda x: 2) if use_path_source else (lambda x: x + 1), u)
                 reg.add(d, JsonFileStore(pd))
                 fresh = None if tF is None else render(tF, fF, zone)
                 uberjob.run(plan, registry=reg, fresh_time=fresh, max_workers=1, progress=None)
